@@ -5,6 +5,7 @@
   on the Go side by the harness (a check, not a theorem).  No upper bound on the year.
 -/
 import Gedcom.Lemmas.Calendar
+import Gedcom.Generated.DateSrc
 namespace Gedcom.C05
 open Gedcom
 
@@ -213,5 +214,24 @@ example : (⟨0, 2, 1900⟩ : Date).WF ∧ (⟨0, 2, 1900⟩ : Date).periodDays 
 example : Full ⟨29, 2, 2000⟩ ∧ Full ⟨1, 3, 2000⟩ ∧
     (⟨29, 2, 2000⟩ : Date).firstDay < (⟨1, 3, 2000⟩ : Date).firstDay := by
   unfold Full; decide
+
+/-- **Obligation on the regenerated source shape of the date arithmetic.** `Date.IsBefore` and
+    `Date.IsAfter` are the strict comparisons of the two `Years()` values (what `isBefore_iff` /
+    `isAfter_iff` model), `Date.Years` distinguishes exactly the cases day+month+year /
+    month+year / year in that order, and `Date.Time` builds its instant from the same three cases
+    and moves an end-of-range date to the last nanosecond of its day / month / year. -/
+theorem date_source_shape :
+    Generated.statementsOfIsBefore =
+      ["leftYears := date.Years()", "rightYears := date2.Years()", "return leftYears < rightYears"] ∧
+    Generated.statementsOfIsAfter =
+      ["leftYears := date.Years()", "rightYears := date2.Years()", "return leftYears > rightYears"] ∧
+    Generated.conditionsOfYears =
+      ["if hasDay && hasMonth && hasYear => return", "if hasMonth && hasYear => return",
+       "if hasYear => return"] ∧
+    Generated.conditionsOfTime =
+      ["case date.Day != 0 && date.Month != 0 && date.Year != 0",
+       "case date.Month != 0 && date.Year != 0", "case date.Year != 0", "default",
+       "if date.IsEndOfRange && ok", "case date.Day != 0", "case date.Month != 0",
+       "case date.Year != 0"] := by decide
 
 end Gedcom.C05
